@@ -126,10 +126,10 @@ impl LabelString {
     { unimplemented!() }
 }
 
-/// get_any hands out exactly the next item of the stream (or UnexpectedEOF at its end) and consumes it
+/// get_any hands out exactly the next item of the stream (an error at its end) and consumes it
 pub open spec fn took_next(before: Seq<Result<Token, LexError>>, after: Seq<Result<Token, LexError>>, r: Result<Token, LexError>) -> bool {
     if before.len() == 0 {
-        r is Err && r->Err_0 is UnexpectedEOF && after == before
+        r is Err && after == before
     } else {
         r == before[0] && after == before.skip(1)
     }
@@ -300,7 +300,8 @@ pub open spec fn official(k: Klass, s: Seq<Result<Token, LexError>>, m: Sem) -> 
         // lui rd, imm: rd <- imm * 4096. Only the shape is stated here: the operand range check (`RangeInclusive::contains`)
         // and the `<< 12` on i32 have no usable Verus specification; value and range are decided (bounded) by decode_n.
         Klass::Lui => is_reg(s, 1) && is_imm(s, 2) && (m matches Sem::Const { rd, value } && rd == rg(s, 1)),
-        Klass::Auipc => true,   // KNOWN FINDING (carve-out `auipc`): parsed as `auipc rd, rs1, imm`; the manual's form is `auipc rd, imm`
+        // auipc rd, imm: same operand form as lui (shape only, see above)
+        Klass::Auipc => is_reg(s, 1) && is_imm(s, 2) && (m matches Sem::PcRel { rd, a, value } && rd == rg(s, 1) && a == Opd::Imm(0)),
         Klass::Load(t) =>
             (is_reg(s, 1) && is_imm(s, 2) && is_lp(s, 3) && is_reg(s, 4) && is_rp(s, 5) && m == Sem::Load { t, rd: rg(s, 1), rs1: rg(s, 4), imm: im(s, 2) })
             || (is_reg(s, 1) && is_lp(s, 2) && is_reg(s, 3) && is_rp(s, 4) && m == Sem::Load { t, rd: rg(s, 1), rs1: rg(s, 3), imm: 0 })
@@ -443,8 +444,8 @@ pub open spec fn pseudo_name(i: Inst) -> Option<PseudoType> {
 pub open spec fn type_klass(i: Inst, t: Type) -> bool {
     match t {
         Type::Arith(a) => klass(i) == Klass::R(alu_of_arith(a)),
-        Type::IArith(a) => (a == IArithType::Auipc && klass(i) == Klass::Auipc) || (iarith_alu(a) is Some && klass(i) == Klass::I(iarith_alu(a)->Some_0)),
-        Type::UpperArith(_) => klass(i) == Klass::Lui,
+        Type::IArith(a) => iarith_alu(a) is Some && klass(i) == Klass::I(iarith_alu(a)->Some_0),
+        Type::UpperArith(a) => (a == IArithType::Lui && klass(i) == Klass::Lui) || (a == IArithType::Auipc && klass(i) == Klass::Auipc),
         Type::Load(l) => klass(i) == Klass::Load(l),
         Type::Store(x) => klass(i) == Klass::Store(x),
         Type::Branch(b) => klass(i) == Klass::Branch(b),
@@ -461,8 +462,8 @@ pub open spec fn type_klass(i: Inst, t: Type) -> bool {
 pub open spec fn type_spec(i: Inst, t: Type) -> bool {
     type_klass(i, t) && match t {
         Type::Arith(a) => rtype(i) == Some(alu_of_arith(a)),
-        Type::IArith(a) => (itype(i) is Some && iarith_alu(a) == itype(i)) || (i == Inst::Auipc && a == IArithType::Auipc),
-        Type::UpperArith(a) => i == Inst::Lui && a == IArithType::Lui,
+        Type::IArith(a) => itype(i) is Some && iarith_alu(a) == itype(i),
+        Type::UpperArith(a) => (i == Inst::Lui && a == IArithType::Lui) || (i == Inst::Auipc && a == IArithType::Auipc),
         Type::Load(l) => ltype(i) == Some(l),
         Type::Store(x) => stype(i) == Some(x),
         Type::Branch(b) => btype(i) == Some(b),
